@@ -50,6 +50,9 @@ CLAIMED = {
     "C18": dict(text="real spline-branch closures, real helper chain, real DCT_2D derivative methods compared with forward-mode AD of the real value functions; div B = 0; dispatch of multi-location arguments",
                 note="interpolant contract (returns partial derivatives of one function); point inside the box; DCT 2x2/3x2 coefficients; node reproduction and inter-method agreement not decided",
                 tech=TECH + "; forward-mode AD (jets), exact rational-function normal form"),
+    "C19": dict(text="SELECTION LOGIC ONLY (not the search): AST slices of find_critical (Hessian-determinant classification on the 5x5 stencil for a general quadratic psi; de-duplication, primary O-point, X-point ordering), of makeRegions (single/double-null decision with psinorm_sol and inside-wall predicate) and of findLegs (inner/outer labelling) on symbolic candidates",
+                note="that every critical point is found once and to tolerance (grid search + Newton on a compiled spline) is NOT decided; O-X line test reduced to 3 samples; inside_wall arbitrary predicate",
+                tech=TECH + "; AST slices of the current source"),
     "C20": dict(text="real find_intersections/closest_approach/polygons.* run on symbolic real coordinates; every path of the slope-class/sort/range logic explored; z3 (QF_NRA) compares with the exact parametric solution",
                 note="reals not doubles; coordinates in [-8,8]; 1 wall edge x 1 segment (edges are processed element-wise); polygons <= 5 vertices; completeness away from near-parallel configurations",
                 tech=TECH + "; QF_NRA with lazy quotient abstraction"),
